@@ -21,7 +21,7 @@ LEVEL = "proof"
 THEOREMS = ["atomic_files_whole", "plan_atomic_files_whole", "read_blob_exact", "damage_is_miss", "diag_damage_is_miss",
             "manifest_damage_is_miss", "purged_blob_was_a_miss", "C05_truncated_output_survives",
             "C05_atomic_write_alone_leaves_map", "C05_revert_keeps_crashed_output", "old_blob_payload_not_verified",
-            "old_diag_blob_damage_drops_warnings", "recovery_partial", "recovery_fixed", "recovery_fixed_closed",
+            "old_diag_blob_damage_drops_warnings", "no_stamp_is_stale", "no_stamp_is_miss", "lost_info_recovery", "recovery_partial", "recovery_fixed", "recovery_fixed_closed",
             "damage_recovery"]
 
 KEY_TRUNC = "crash:truncated-output-kept-as-hit"
@@ -223,6 +223,17 @@ def post_none(root, files, st):
     return None
 
 
+def post_edit_leaf_pkg(root, files, st):
+    edit_leaf_and_pkg(files)
+    proj.sync_tree(root, files, {})
+
+
+def post_edit_again(root, files, st):
+    files["src/leaf.veryl"] = files["src/leaf.veryl"].replace("assign o = i;", "assign o = i & i;")
+    files["src/pkg_a.veryl"] = re.sub(r"const W: u32 = \d+", "const W: u32 = 4", files["src/pkg_a.veryl"])
+    proj.sync_tree(root, files, {})
+
+
 def post_edit_other(root, files, st):
     files["src/alone.veryl"] = files["src/alone.veryl"] + "\n// touched after the crash\n"
     proj.sync_tree(root, files, {})
@@ -273,9 +284,13 @@ SCENARIOS = {
     "revert-mtime": ("plain", sc_revert, "build", post_revert_mtime, ["build"]),
     "edit-big": ("big", sc_edit, "build", post_none, ["build"]),
     "dmgfrag": ("plain", sc_dmgfrag, "build", post_none, ["build"]),
+    # the crashed build may die at its very last write (info.toml); then the sources are edited and `veryl check`
+    # moves the manifest ahead of the outputs before the next build: only the missing stamp makes them stale
+    "coldck": ("plain", sc_cold, "build", post_edit_leaf_pkg, ["check", "build"]),
+    "editck": ("plain", sc_edit, "build", post_edit_again, ["check", "build"]),
 }
-QUICK = ["cold", "edit", "delsv", "check", "delboth"]
-THOROUGH = QUICK + ["edit+edit", "cold-warn", "toml-revert", "revert-mtime", "edit-big", "dmgfrag"]
+QUICK = ["cold", "edit", "delsv", "check", "delboth", "coldck"]
+THOROUGH = QUICK + ["edit+edit", "cold-warn", "toml-revert", "revert-mtime", "edit-big", "dmgfrag", "editck"]
 
 
 def variant_files(v):
@@ -726,7 +741,7 @@ def damage_tree(base, tag, xdg):
 
 
 def apply_edit(t, edit):
-    if edit == "leaf+pkg":
+    if edit in ("leaf+pkg", "checked"):
         edit_leaf_and_pkg(t.files)
         proj.sync_tree(t.root, t.files, {})
     elif edit == "other":
@@ -755,6 +770,9 @@ def damage_chunk(args):
 
 def damage_case(t, xdg, role, op, edit, seed, clean):
     t.restore()
+    if edit == "checked":       # edit, then `veryl check` (manifest now ahead of the outputs), THEN the damage
+        apply_edit(t, edit)
+        veryl(t.root, ["check"], xdg)
     roles = damage_targets(t.root)
     res = {"role": role, "op": op, "edit": edit}
     if role not in roles:
@@ -770,7 +788,8 @@ def damage_case(t, xdg, role, op, edit, seed, clean):
     data, orig = read_file(os.path.join(t.root, rel)), read_file(os.path.join(t.pre, rel))
     res["payload_only"] = bool(data is not None and orig is not None and len(data) == len(orig)
                                and data[:8] == orig[:8] and data != orig and rel.endswith(".frag"))
-    apply_edit(t, edit)
+    if edit != "checked":
+        apply_edit(t, edit)
     obs = observe(t.root, t.recover, xdg)
     outs = outputs(t.root)
     cobs, couts = clean
@@ -789,9 +808,9 @@ def damage_case(t, xdg, role, op, edit, seed, clean):
 # deleted-both scenario (the only place where "between two outputs" matters), every rename of edit/check, and a
 # spread over the cold build; the thorough tier enumerates every class in every scenario
 QUICK_CLASSES = {"cold": ["write", "renameat"], "edit": ["write", "renameat"], "delsv": ["write"],
-                 "delboth": ["write", "openat"], "check": ["write", "renameat"]}
+                 "delboth": ["write", "openat"], "check": ["write", "renameat"], "coldck": ["write"]}
 ALL_CLASSES = ["write", "openat", "renameat", "fchmod", "mkdir", "unlink"]
-QUICK_LIMIT = {("cold", "write"): 6, ("cold", "renameat"): 5}   # a spread (no cache exists yet in a cold build)
+QUICK_LIMIT = {("cold", "write"): 6, ("cold", "renameat"): 5, ("coldck", "write"): 5}   # a spread (no cache exists yet in a cold build)
 
 
 def chunks(xs, n):
@@ -809,12 +828,12 @@ def run(ctx):
     ctx.cov["rule"] = ("(0) project-dir syscall word of an uncrashed run = model step word (vmodel crash) per scenario; "
                        "(a) kill `veryl build|check` at its j-th write (every j of the warm scenarios), open of an in-place file, "
                        "renameat (thorough: + unlink, fchmod, mkdir, every class in every scenario, all j until the run survives); scenarios cold / warm-after-edit / "
-                       "deleted .sv / deleted .sv+.map / check (thorough: + edit after the crash, warnings, Veryl.toml "
+                       "deleted .sv / deleted .sv+.map / check / cold build + edit + `veryl check` before the next build (thorough: + edit after the crash, warnings, Veryl.toml "
                        "change+revert, mtime-preserving revert, larger project, a corrupted fragment blob); then build and compare outputs, exit status "
                        "and diagnostic set with a clean build of the same sources; (b) files under .build (manifest, info.toml, "
                        "diagnostics blob, fragments, locks) truncated / bit-flipped / garbage / deleted (quick: 33 picked cases; "
                        "thorough: {0,1,7,8,n/2,n-1} x 7 flip offsets x all fragments x further edits + a 128-position payload "
-                       "sweep), then check + build vs clean; distinct = distinct (scenario, killed syscall) and "
+                       "sweep), then check + build vs clean; info.toml also damaged AFTER edit + `veryl check` (manifest ahead of the outputs); distinct = distinct (scenario, killed syscall) and "
                        "(file role, damage, edit) cases")
     if not cli_build(ctx):
         return
@@ -832,9 +851,9 @@ def run(ctx):
 
     try:
         # ---- (0) reference runs + correspondence --------------------------------------------
-        edits = [None, "leaf+pkg", "other"] if thorough else [None]
+        edits = [None, "leaf+pkg", "other", "checked"] if thorough else [None]
         with ThreadPoolExecutor(max_workers=WORKERS) as ex:
-            fut_clean = [ex.submit(damage_clean, base, xdg, e) for e in edits]
+            fut_clean = [ex.submit(damage_clean, base, xdg, e) for e in set(edits) | {"checked"}]
             refs = list(ex.map(lambda s: reference_run(base, s, xdg), scens))
             dcleans = dict(f.result() for f in fut_clean)
         ctx.log(f"reference runs done ({len(refs)} scenarios, {round(time.time() - ctx.t0)} s)")
@@ -897,6 +916,8 @@ def run(ctx):
             bump("tmp_files_left_by_crashes", r["tmp_left"])
             if r["empty_after_crash"]:
                 bump("crashes_leaving_an_empty_output")
+            if r["kill_at"].endswith("-> .build/info.toml"):
+                bump("killed_at_the_info_toml_write")
             if sum(1 for s_ in ctx.cov["samples"] if isinstance(s_, dict) and "inject" in s_) < 2 and r["cls"] in ("write", "renameat"):
                 ctx.sample({"scenario": r["scen"], "inject": f"{r['cls']}:signal=SIGKILL:when={r['j']}", "killed_at": r["kill_at"],
                             "recovery": r["obs"], "differs_from_clean": bool(r["diff"])})
@@ -949,6 +970,9 @@ def run(ctx):
                     continue
                 for e in edits:
                     cases.append((role, op, e, ctx.seed + len(cases)))
+        if not thorough:        # edit + `veryl check` first, then info.toml is lost / truncated / replaced
+            for op in [("delete", 0), ("trunc", 0), ("trunc", "half"), ("garbage", 0)]:
+                cases.append(("info", op, "checked", ctx.seed + len(cases)))
         if os.environ.get("VERIF_C05_DAMAGE"):      # development aid: first N cases
             cases = cases[:int(os.environ["VERIF_C05_DAMAGE"])]
         random.Random(ctx.seed).shuffle(cases)
